@@ -8,6 +8,6 @@ MODULES, CONTRACTS = c02.MODULES, []
 QUICK = {0, 1, 2, 4, 8, 16, 3, 12, 21, 31}
 HARNESSES = c02.CLEAR
 for k, h in enumerate(HARNESSES):
-    h.tier = "quick" if k in QUICK else "thorough"
+    h.tier = "quick" if (k in QUICK or h.name == "c05_clear_full_buffer_contract") else "thorough"
 TRUSTED = ["Session::manage (clear -> read -> handle -> send loop, Connection: close => break) is written against TcpStream and is read, not verified"]
 ASSUMPTIONS = ["whole-read non-interference (a cleared request parses like a fresh one) is not under a discharged contract; it rests on clear()'s frame contract plus Request::read reading only the bytes of the current read"]
